@@ -251,6 +251,9 @@ class FuncTr:
         m = re.match(r'(bitcast|getelementptr|inttoptr|ptrtoint)\b', v)
         if m:
             return self.constexpr(ty, v)
+        if v.startswith('{') and v.endswith('}') and ct.startswith('struct'):
+            # constant struct literal, e.g. `{ i64, i64 } { i64 1, i64 1 }` as a phi/ret/insertvalue operand
+            return '((%s){ %s })' % (ct, ', '.join(self.cval(*take_type(p)) for p in split_top(v[1:-1])))
         raise Exception('cval: %s %s' % (ty, v))
 
     def constexpr(self, ty, v):
